@@ -61,6 +61,7 @@ func TestMain(m *testing.M) {
 //	model   run the case in VERIF_C19_CASE against the model, print one JSON line {"ok":..,"msg":..,"sum":..}
 //	work    run the workload in VERIF_C19_CASE in VERIF_C19_DIR (no model comparison), append the index of
 //	        every completed operation (and the number of hook hits so far) to VERIF_C19_PROGRESS
+//	open    open VERIF_C19_DIR and close it again (the restart alone; used for kills during the recovery)
 //	verify  open VERIF_C19_DIR, dump all keys, append a marker record, reopen, dump again ... print JSON
 
 type modelResult struct {
@@ -112,6 +113,16 @@ func childMain(mode string) int {
 		}
 		b, _ := json.Marshal(res)
 		fmt.Println("RESULT " + string(b))
+		return 0
+	case "open":
+		// just the restart: open as the client does, close again
+		var db *qdb.DB
+		if e := qdb.NewDBExt(&db, &qdb.NewDBOpts{Dir: dir, LoadData: true}); e != nil {
+			fmt.Println("child: open failed:", e)
+			return 92
+		}
+		db.Close()
+		fmt.Println("RESULT {}")
 		return 0
 	case "verify":
 		res := verifyDir(dir)
@@ -532,13 +543,13 @@ func readProgress(fn string) []progressLine {
 	return out
 }
 
-// runCrashPoint: run the workload in a fresh child that kills itself at the point, then restart and judge.
-// wantOp (optional) is the operation the trace run attributes the point to.
-func runCrashPoint(tmp string, w kvCase, point string, wantOp *int) (res crashResult) {
+// crashImage runs the workload in a fresh child that kills itself at the point and leaves the directory
+// image in <tmp>/db.  done = index of the last operation that had completed (-2: killed in the first open).
+func crashImage(tmp string, w kvCase, point string, wantOp *int) (dir string, done int, res crashResult) {
 	raw, _ := json.Marshal(w)
 	cf := filepath.Join(tmp, "case.json")
 	os.WriteFile(cf, raw, 0o644)
-	dir := filepath.Join(tmp, "db")
+	dir = filepath.Join(tmp, "db")
 	pf := filepath.Join(tmp, "progress")
 	out := runChild("work", "VERIF_C19_CASE="+cf, "VERIF_C19_DIR="+dir, "VERIF_C19_PROGRESS="+pf, "VERIF_CRASH_AT="+point, "VERIF_TRACE=")
 	if out.err != nil {
@@ -554,15 +565,20 @@ func runCrashPoint(tmp string, w kvCase, point string, wantOp *int) (res crashRe
 		}
 		return
 	}
-	done := -2 // no line at all: killed inside the very first open
+	done = -2 // no line at all: killed inside the very first open
 	for _, p := range readProgress(pf) {
 		done = p.op
 	}
 	res.op = done + 1
 	if wantOp != nil && *wantOp != res.op {
 		res.harness = fmt.Sprintf("crash point %s hit during op %d, the trace run saw it during op %d", point, res.op, *wantOp)
-		return
 	}
+	return
+}
+
+// verifyImage restarts on the directory (fresh process) and judges what it finds.
+func verifyImage(dir string, w kvCase, done int, what string) (res crashResult) {
+	res.op = done + 1
 	v := runChild("verify", "VERIF_C19_DIR="+dir, "VERIF_CRASH_AT=", "VERIF_TRACE=")
 	if v.err != nil {
 		res.harness = "cannot start the verify child: " + v.err.Error()
@@ -570,7 +586,7 @@ func runCrashPoint(tmp string, w kvCase, point string, wantOp *int) (res crashRe
 	}
 	rl := resultLine(v.stdout)
 	if rl == "" {
-		res.violation = fmt.Sprintf("after a kill at %s (during op %d) the store does not open: the process died (exit %d): %s", point, res.op, v.exit, tail(v.stderr, 400))
+		res.violation = fmt.Sprintf("after %s (during op %d) the store does not open: the process died (exit %d): %s", what, res.op, v.exit, tail(v.stderr, 400))
 		return
 	}
 	var vr verifyResult
@@ -579,7 +595,7 @@ func runCrashPoint(tmp string, w kvCase, point string, wantOp *int) (res crashRe
 		return
 	}
 	if vr.Err != "" {
-		res.violation = fmt.Sprintf("after a kill at %s (during op %d): %s", point, res.op, vr.Err)
+		res.violation = fmt.Sprintf("after %s (during op %d): %s", what, res.op, vr.Err)
 		return
 	}
 	dump := map[int][]byte{}
@@ -592,9 +608,74 @@ func runCrashPoint(tmp string, w kvCase, point string, wantOp *int) (res crashRe
 		dump[k] = b
 	}
 	if msg := judge(w, done, dump); msg != "" {
-		res.violation = fmt.Sprintf("after a kill at %s (during op %d): %s", point, res.op, msg)
+		res.violation = fmt.Sprintf("after %s (during op %d): %s", what, res.op, msg)
 	}
 	return
+}
+
+func copyDir(src, dst string) error {
+	ents, err := os.ReadDir(src)
+	if err != nil {
+		return err
+	}
+	if err := os.MkdirAll(dst, 0o770); err != nil {
+		return err
+	}
+	for _, e := range ents {
+		if e.IsDir() {
+			continue
+		}
+		b, err := os.ReadFile(filepath.Join(src, e.Name()))
+		if err != nil {
+			return err
+		}
+		if err := os.WriteFile(filepath.Join(dst, e.Name()), b, 0o660); err != nil {
+			return err
+		}
+	}
+	return nil
+}
+
+// A point is "<hook>#<n>" (the process dies there while running the workload) optionally followed by
+// "+<hook>#<n>" (the restarted process dies there too, inside NewDBExt, before the final restart).
+func runCrashPoint(tmp string, w kvCase, point string, wantOp *int) (res crashResult) {
+	first, second, _ := strings.Cut(point, "+")
+	dir, done, res := crashImage(tmp, w, first, wantOp)
+	if res.harness != "" || res.violation != "" {
+		return res
+	}
+	what := "a kill at " + first
+	if second != "" {
+		out := runChild("open", "VERIF_C19_DIR="+dir, "VERIF_CRASH_AT="+second, "VERIF_TRACE=")
+		if out.err != nil || !out.killed {
+			res.harness = fmt.Sprintf("second crash point %s was not reached", second)
+			return res
+		}
+		what += " and a second kill at " + second + " during the restart"
+	}
+	return verifyImage(dir, w, done, what)
+}
+
+// recoveryPoints: the hook points hit by the restart on the image in dir (run on a copy).
+func recoveryPoints(tmp, dir string) []string {
+	cp := filepath.Join(tmp, "probe")
+	if copyDir(dir, cp) != nil {
+		return nil
+	}
+	tf := filepath.Join(tmp, "probe.trace")
+	out := runChild("open", "VERIF_C19_DIR="+cp, "VERIF_TRACE="+tf, "VERIF_CRASH_AT=")
+	os.RemoveAll(cp)
+	if out.err != nil || resultLine(out.stdout) == "" {
+		return nil // the plain restart is judged by the caller
+	}
+	b, _ := os.ReadFile(tf)
+	counts := map[string]int{}
+	var pts []string
+	for _, nm := range strings.Fields(string(b)) {
+		counts[nm]++
+		pts = append(pts, fmt.Sprintf("%s#%d", nm, counts[nm]))
+	}
+	return pts
 }
 
 type tracePoint struct {
@@ -602,6 +683,7 @@ type tracePoint struct {
 	n        int  // ordinal of this name
 	op       int  // operation during which it is hit (-1: the initial open)
 	interior bool // not the last hook hit of its operation
+	idx      int  // position in the trace
 }
 
 // traceWorkload runs the workload once, uninterrupted, and lists every hook hit.
@@ -630,7 +712,7 @@ func traceWorkload(tmp string, w kvCase) ([]tracePoint, string) {
 			op = prog[pi].op
 		}
 		counts[nm]++
-		pts = append(pts, tracePoint{name: nm, n: counts[nm], op: op})
+		pts = append(pts, tracePoint{name: nm, n: counts[nm], op: op, idx: i})
 	}
 	for i := range pts {
 		pts[i].interior = i+1 < len(pts) && pts[i+1].op == pts[i].op
@@ -648,7 +730,7 @@ func TestQdbCrash(t *testing.T) {
 	shard, _ := pbt.Shard()
 	gen := rapid.Custom(func(t *rapid.T) kvCase { return genKVCase(t, crashWeights, steps, false) })
 	base := pbt.Seed("qdb_crash")
-	workers := 3
+	workers := 4
 	var totalPts, totalW int
 	for j := 0; j < nW && !t.Failed(); j++ {
 		w := gen.Example(int((base + uint64(j)*0x9e3779b97f4a7c15) >> 1))
@@ -683,7 +765,35 @@ func TestQdbCrash(t *testing.T) {
 					}
 					point := fmt.Sprintf("%s#%d", p.name, p.n)
 					op := p.op
-					res := runCrashPoint(tmp, w, point, &op)
+					dir, done, res := crashImage(tmp, w, point, &op)
+					var second []string
+					if res.harness == "" && res.violation == "" {
+						second = recoveryPoints(tmp, dir)
+						res = verifyImage(dir, w, done, "a kill at "+point)
+					}
+					// kills during the recovery from this image: every hook point the restart passes
+					for si, sp := range second {
+						if res.harness != "" || res.violation != "" {
+							break
+						}
+						t2 := filepath.Join(tmp, fmt.Sprintf("second%d", si))
+						os.MkdirAll(t2, 0o770)
+						r2 := runCrashPoint(t2, w, point+"+"+sp, &op)
+						mu.Lock()
+						switch {
+						case r2.harness != "":
+							t.Errorf("harness (shard %d, workload %d): %s", shard, j, r2.harness)
+						case r2.violation != "":
+							d.Eval("recovery:"+strings.SplitN(sp, "#", 2)[0], true, wid+"/"+point+"+"+sp, nil)
+							if !failed {
+								failed = true
+								d.Fail(t, crashCase{W: w, Point: point + "+" + sp}, "%s", r2.violation)
+							}
+						default:
+							d.Eval("recovery:"+strings.SplitN(sp, "#", 2)[0], true, wid+"/"+point+"+"+sp, map[string]any{"workload_ops": len(w.Ops), "point": point + "+" + sp, "during_op": p.op})
+						}
+						mu.Unlock()
+					}
 					os.RemoveAll(tmp)
 					mu.Lock()
 					switch {
